@@ -93,7 +93,7 @@ def t_edit(E):
         E.eq(E.method(new, "get_choices"), E.method(inner_new, "get_choices")),
         E.eq(E.method(new, "get_score"), E.method(inner_new, "get_score")),
         E.eq(w, SReal(T.edit_w(g.t, k.t, old_inner.t, E.I.to_u(req), inner_ad.t))),
-        E.eq(bwd.fields["constraint"], UVal(E.ctx.fn("update_bwd_constraint", U, U)(
+        E.eq(fld(E, bwd, "constraint"), UVal(E.ctx.fn("update_bwd_constraint", U, U)(
             T.edit_bwd(g.t, k.t, old_inner.t, E.I.to_u(req), inner_ad.t)), "ChoiceMap"))))
     fresh = T.fresh(g.t, old_inner.t, E.I.to_u(req), inner_ad.t)
     E.prove("C05.Dimap.edit.weight_is_score_change", E.Implies(
